@@ -176,15 +176,19 @@ class Topology:
     pass
 
   def __traverse_component(self, segment_end, c, visited):
-    s = segment_end.segment
-    assert(isinstance(s, gfapy.Line))
-    for l in s.dovetails_of_end(segment_end.end_type):
-      oe = l.other_end(segment_end)
-      sn = oe.name
-      s = oe.segment
-      if sn in visited:
-        continue
-      visited.add(sn)
-      c.add(s)
-      for e in ["L","R"]:
-        self.__traverse_component(gfapy.SegmentEnd(s, e), c, visited)
+    # (iterative: a chain of any length is traversed)
+    stack = [segment_end]
+    while stack:
+      segment_end = stack.pop()
+      s = segment_end.segment
+      assert(isinstance(s, gfapy.Line))
+      for l in s.dovetails_of_end(segment_end.end_type):
+        oe = l.other_end(segment_end)
+        sn = oe.name
+        s2 = oe.segment
+        if sn in visited:
+          continue
+        visited.add(sn)
+        c.add(s2)
+        for e in ["L","R"]:
+          stack.append(gfapy.SegmentEnd(s2, e))
